@@ -208,3 +208,27 @@ def source_facts():
         if f.startswith("facts-"): os.remove(os.path.join(CACHE, f))
     json.dump(res, open(cache, "w"))
     return res
+
+
+def templates():
+    """T4: the three text/template constants read from the Go sources, parsed by the model's template parser inside Coq and compared with the syntax
+    trees the theorems of Props/C15_templates.v are about (exec_default / exec_left / exec_summary: their evaluation IS the model's renderer).
+    Returns dict(results={name: bool}, missing=[...], props={name: [...]}, ok=bool)."""
+    import re, importlib.util, json
+    spec = importlib.util.spec_from_file_location("gen_templates", os.path.join(VERIF, "tools", "gen_templates.py"))
+    gt = importlib.util.module_from_spec(spec); spec.loader.exec_module(gt)
+    out = os.path.join(VERIF, "coq", "theories", "Gen", "Templates.v")
+    os.makedirs(os.path.dirname(out), exist_ok=True)
+    found = gt.main(out)
+    h = hashlib.sha256(open(out, "rb").read() + coq_hash().encode()).hexdigest()[:20]
+    cache = os.path.join(CACHE, "templates-%s.json" % h)
+    if os.path.exists(cache): return json.load(open(cache))
+    p = subprocess.run(["coqc", "-Q", "theories", "HP", "-w", "-notation-overridden", "theories/Gen/Templates.v"], cwd=os.path.join(VERIF, "coq"),
+                       stdout=subprocess.PIPE, stderr=subprocess.STDOUT, timeout=600)
+    vals = re.findall(r"=\s*(true|false)\s*:\s*bool", p.stdout.decode(errors="replace"))
+    res = dict(results={n: (v == "true") for n, v in zip(found, vals)}, missing=list(gt.main.missing),
+               props={f[0]: f[3] for f in gt.FACTS}, ok=(p.returncode == 0 and len(vals) == len(found)))
+    for f in os.listdir(CACHE):
+        if f.startswith("templates-"): os.remove(os.path.join(CACHE, f))
+    json.dump(res, open(cache, "w"))
+    return res
